@@ -4,7 +4,8 @@
     Part 1  tree type, [predict] (make_prediction), the fit-time routing rule, [prune],
             level-order iteration (iter.rs) and the impurity-decrease statistics.
     Part 2  a transliteration of [TreeNode::fit] (label frequencies with mask, modal class, the
-            sweep over presorted values, Gini score, midpoint threshold, recursive masks),
+            sweep over presorted values, Gini / entropy score with the class weights summed in
+            ascending class order, midpoint threshold, recursive masks),
             polymorphic in the arithmetic of weights/scores (f32 in Rust) and of features (F).
     Part 3  the exact-arithmetic checker [chk_tree] (pattern B) that is evaluated on the trees the
             implementation returns.
@@ -151,9 +152,18 @@ Context {W X : Type} (ow : NumOps W) (ox : NumOps X) (cast : W -> X).
 (** class-frequency table = HashMap<L, f32>; position = class, [None] = key absent *)
 Definition freq_tab := list (option W).
 
+(** sorted_frequencies (commit 46699a6): the values of the present keys in ascending order of the
+    class (position = rank of the label in its [Ord]) *)
 Definition tab_vals (t : freq_tab) : list W :=
   flat_map (fun e => match e with Some v => [v] | None => [] end) t.
-Definition tab_sum (t : freq_tab) : W := fold_left (add ow) (tab_vals t) (zero ow).
+
+(** `iter().sum::<f32>()`: a left fold of `+` starting from the neutral element of the float
+    addition, which is -0.0 in the standard library (`impl Sum for f32`, Rust >= 1.83) *)
+Definition neg_zero : W := opp ow (zero ow).
+Definition fsum (l : list W) : W := fold_left (add ow) l neg_zero.
+
+(** total_weight = sorted_frequencies(&parent_class_freq).iter().sum::<f32>() *)
+Definition tab_sum (t : freq_tab) : W := fsum (tab_vals t).
 
 (* entry(c).or_insert(0.0) += w *)
 Definition tab_add (t : freq_tab) (c : nat) (w : W) : freq_tab :=
@@ -162,12 +172,21 @@ Definition tab_add (t : freq_tab) (c : nat) (w : W) : freq_tab :=
 Definition tab_sub (t : freq_tab) (c : nat) (w : W) : freq_tab :=
   upd t c (fun e => match e with Some v => Some (sub ow v w) | None => None end).
 
-(** gini_impurity: 1 - sum (x / n)^2 over the values of the table *)
+(** gini_impurity: n = sum of the class weights in ascending class order;
+    1 - sum over the classes (same order) of (x / n) * (x / n) *)
 Definition gini (t : freq_tab) : W :=
   let vs := tab_vals t in
-  let n := fold_left (add ow) vs (zero ow) in
-  sub ow (one ow)
-      (fold_left (add ow) (map (fun x => let p := div ow x n in mul ow p p) vs) (zero ow)).
+  let n := fsum vs in
+  sub ow (one ow) (fsum (map (fun x => let p := div ow x n in mul ow p p) vs)).
+
+(** entropy: sum over the classes (ascending order) of `if p > 0.0 { -p * p.log2() } else { 0.0 }`
+    for p = x / n.  [log2] stands for `f32::log2` (not an IEEE operation: a parameter of the model;
+    over the reals ln p / ln 2, in the f32 runs the values the Rust run time returned, C14/Corr.v) *)
+Definition entropy (log2 : W -> W) (t : freq_tab) : W :=
+  let vs := tab_vals t in
+  let n := fsum vs in
+  fsum (map (fun x => let p := div ow x n in
+                      if ltb ow (zero ow) p then mul ow (opp ow p) (log2 p) else zero ow) vs).
 
 (** find_modal_class (after commit 2eff895): the accumulator survives when its frequency is larger,
     or equal with a smaller label; evaluated here over the present keys in increasing label order
